@@ -60,7 +60,12 @@ func VerifC20Password() {
 	for i := 0; i < n; i++ {
 		b := sym[i]
 		// an alphabet disjoint from the library's own log texts ("USER ident 12 * :...", "%.2f") and from the other configured strings
-		vAssume(b-'3' < 7 || b == '#' || b == '$' || b == '~' || b == '^' || b == '_' || b == '=' || b == '+' || b == '@' || b == '?')
+		// (a space too, but not in first position: a password that is a space occurs in every record)
+		sp := byte(' ')
+		if i == 0 {
+			sp = '3'
+		}
+		vAssume(b-'3' < 7 || b == '#' || b == '$' || b == '~' || b == '^' || b == '_' || b == '=' || b == '+' || b == '@' || b == '?' || b == sp)
 	}
 	pw := sym
 	if vParam("LONG", 0) == 1 {
@@ -77,19 +82,26 @@ func VerifC20Password() {
 	cfg.PingFreq = 0
 	cfg.Flood = true // flood control is C10's subject; its clock arithmetic only slows the solver here
 	cfg.EnableCapabilityNegotiation = vLen("capneg", 0, 1) == 1
-	w := vNewLiveWire(":srv NOTICE * :hello\r\n", "garbage \r\n")
+	rounds := vParam("R", 1)
 	failAt := vLen("failwrite", 0, 4) - 1
-	w.failWriteAt = failAt
-	d := &vDialer{wire: w, fail: vLen("dialfails", 0, 1) == 1}
+	d := &vDialer{fail: vLen("dialfails", 0, 1) == 1}
+	for r := 0; r < rounds; r++ {
+		w := vNewLiveWire(":srv NOTICE * :hello\r\n", ":srv 001 me :welcome\r\n", "garbage \r\n")
+		w.failWriteAt = failAt
+		d.wires = append(d.wires, w)
+	}
 	vInstallDialer(d)
 	conn := Client(cfg)
 	if vLen("track", 0, 1) == 1 {
 		conn.EnableStateTracking()
 	}
-	_ = conn.ConnectContext(context.Background())
-	vRunPending()
-	conn.Close()
-	vRunPending()
+	// one or several sessions on the same client (connect, be welcomed, disconnect, connect again)
+	for r := 0; r < rounds; r++ {
+		_ = conn.ConnectContext(context.Background())
+		vRunPending()
+		conn.Close()
+		vRunPending()
+	}
 	lg.mu.Lock()
 	recs := lg.recs
 	lg.mu.Unlock()
